@@ -244,7 +244,15 @@ fn check_meta_form(enc0: &'static Encoding, label: &str, second_label: Option<&s
     // scan_mode: nothing after the meta tag is captured (the parser stays in tag-scan mode), so
     // the switch must be flushed by the meta tag itself, not by the next captured token
     let first = if scan_mode { HSpec::obs(HKind::Element, "p[id]") } else { HSpec::obs(HKind::DocText, "") };
+    // after the last text: an element whose handler inserts non-ASCII content and sets a non-ASCII
+    // attribute value — they must come out in the encoding in effect there
+    if !scan_mode {
+        d.extend_from_slice(b"<t></t>");
+    }
     let mut hs = vec![first, HSpec::with_ops(HKind::DocEnd, "", vec![Op::Append("\u{416}".into(), true)])];
+    if !scan_mode {
+        hs.push(HSpec { log: false, ..HSpec::with_ops(HKind::Element, "t", vec![Op::Before("\u{416}".into(), true), Op::SetAttr("k".into(), "\u{416}\"".into())]) });
+    }
     if http_equiv {
         // an odd number of handlers makes the driver call the settings builder in the other order
         // (adjust_charset_on_meta_tag before with_encoding)
@@ -307,6 +315,16 @@ fn check_meta_form(enc0: &'static Encoding, label: &str, second_label: Option<&s
             let tail = e1.encode("\u{416}").0.into_owned();
             if !rr.out.ends_with(&tail) {
                 return Some(format!("content appended at the end is not encoded in {}", e1.name()));
+            }
+            if !scan_mode {
+                let mut want_tail = e1.encode("\u{416}").0.into_owned();
+                want_tail.extend_from_slice(b"<t k=\"");
+                want_tail.extend_from_slice(&e1.encode("\u{416}&quot;").0);
+                want_tail.extend_from_slice(b"\"></t>");
+                want_tail.extend_from_slice(&tail);
+                if !rr.out.ends_with(&want_tail) {
+                    return Some(format!("content inserted / attribute value set after the switch is not encoded in {}: output ends with {}", e1.name(), hex(&rr.out[rr.out.len().saturating_sub(want_tail.len() + 4)..])));
+                }
             }
         }
         None => {
@@ -510,7 +528,7 @@ pub fn run_check(ctx: &Ctx) -> i32 {
                 // keeps reading UTF-8 after the switch gives a different string)
                 for unit in [&[0xE9u8][..], &[0xC3, 0xA9], &[0xDF, 0xAB], &[0x83, 0x41]] {
                     for http_equiv in [false, true] {
-                        let doc_len = 2 * unit.len() + 4 + format!("<meta charset={l}>").len() + if http_equiv { 48 } else { 0 } + l2.map(|x: &str| format!("<meta charset=\"{x}\">").len() + 1 + unit.len()).unwrap_or(0);
+                        let doc_len = 7 + 2 * unit.len() + 4 + format!("<meta charset={l}>").len() + if http_equiv { 48 } else { 0 } + l2.map(|x: &str| format!("<meta charset=\"{x}\">").len() + 1 + unit.len()).unwrap_or(0);
                         let mut cutsets: Vec<Vec<usize>> = vec![vec![]];
                         cutsets.extend((1..doc_len).map(|c| vec![c]));
                         for cuts in cutsets {
